@@ -111,6 +111,17 @@ def extract_env():
             env["VERIF_C16_MIN_COST_ERR"] = "pattern `let cost = std::cmp::max(<expr>, <N>)` not found in should_ratelimit"
     except Exception as e:  # noqa
         env["VERIF_C16_MIN_COST_ERR"] = f"extraction failed: {e}"
+    # async-inline logic lifted into synchronous fns (regenerated from source on every run)
+    import lift
+    status, notes = lift.generate()
+    env["VERIF_GEN_DIR"] = lift.GEN_DIR
+    owners = {"router_handle_query": ["C15"], "dnsacl_handle_query": ["C08"], "ratelimiter_check": ["C05", "C16"],
+              "should_ratelimit": ["C16"], "create_in_reply": ["C03"], "cache_handle_query": ["C06"]}
+    for name, err in status.items():
+        if err:
+            for pid in owners.get(name, []):
+                env[f"VERIF_{pid}_LIFT_{name.upper()}_ERR"] = f"lifting {name}: {err}"
+    env["_LIFT_NOTES"] = "\n".join(notes)
     return env
 
 
